@@ -80,6 +80,7 @@ type AdapterSpec struct {
 	Proto       string          `json:"proto"` // http | grpc-client | grpc-server | grpc-tap
 	ViaRequest  bool            `json:"via_request,omitempty"`
 	ViaClient   bool            `json:"via_client,omitempty"`
+	ViaPolicies bool            `json:"via_policies,omitempty"` // the constructor taking policies instead of an executor (only without an executor context)
 	Method      string          `json:"method,omitempty"`
 	Body        int             `json:"body,omitempty"`
 	BodySize    int             `json:"body_size,omitempty"`
@@ -491,11 +492,18 @@ func (w *adapterWorld) runHTTP() {
 	}
 	tr := &simTransport{w}
 	var resp *http.Response
+	viaPolicies := spec.ViaPolicies && w.execCtx == nil
 	switch {
+	case spec.ViaRequest && viaPolicies:
+		resp, err = failsafehttp.NewRequest(req, &http.Client{Transport: tr}, pols...).Do()
 	case spec.ViaRequest:
 		resp, err = failsafehttp.NewRequestWithExecutor(req, &http.Client{Transport: tr}, ex).Do()
+	case spec.ViaClient && viaPolicies:
+		resp, err = (&http.Client{Transport: failsafehttp.NewRoundTripper(tr, pols...)}).Do(req)
 	case spec.ViaClient:
 		resp, err = (&http.Client{Transport: failsafehttp.NewRoundTripperWithExecutor(tr, ex)}).Do(req)
+	case viaPolicies:
+		resp, err = failsafehttp.NewRoundTripper(tr, pols...).RoundTrip(req)
 	default:
 		resp, err = failsafehttp.NewRoundTripperWithExecutor(tr, ex).RoundTrip(req)
 	}
@@ -575,7 +583,11 @@ func (w *adapterWorld) runGRPC() {
 			w.log.add(Event{Kind: EvAdapter, L: AdAttemptEnd, A: int64(n), Err: err, B: int64(st.Code)})
 			return err
 		}
-		err := failsafegrpc.NewUnaryClientInterceptorWithExecutor[any](ex)(w.reqCtx, "/svc/Method", req, reply, nil, invoker, opt)
+		ic := failsafegrpc.NewUnaryClientInterceptorWithExecutor[any](ex)
+		if spec.ViaPolicies && w.execCtx == nil {
+			ic = failsafegrpc.NewUnaryClientInterceptor[any](pols...)
+		}
+		err := ic(w.reqCtx, "/svc/Method", req, reply, nil, invoker, opt)
 		w.log.add(Event{Kind: EvAdapter, L: AdReturn, Err: err, A: int64(reply.N)})
 	case "grpc-server":
 		info := &grpc.UnaryServerInfo{FullMethod: "/svc/Method"}
@@ -603,14 +615,22 @@ func (w *adapterWorld) runGRPC() {
 			}
 			return &grpcReply{N: n + 1}, nil
 		}
-		resp, err := failsafegrpc.NewUnaryServerInterceptorWithExecutor[any](ex)(w.reqCtx, req, info, handler)
+		ic := failsafegrpc.NewUnaryServerInterceptorWithExecutor[any](ex)
+		if spec.ViaPolicies && w.execCtx == nil {
+			ic = failsafegrpc.NewUnaryServerInterceptor[any](pols...)
+		}
+		resp, err := ic(w.reqCtx, req, info, handler)
 		e := Event{Kind: EvAdapter, L: AdReturn, Err: err}
 		if rp, ok := resp.(*grpcReply); ok && rp != nil {
 			e.A = int64(rp.N)
 		}
 		w.log.add(e)
 	case "grpc-tap":
-		ctx, err := failsafegrpc.NewServerInHandleWithExecutor[any](ex)(w.reqCtx, &tap.Info{FullMethodName: "/svc/Method"})
+		th := failsafegrpc.NewServerInHandleWithExecutor[any](ex)
+		if spec.ViaPolicies && w.execCtx == nil {
+			th = failsafegrpc.NewServerInHandle[any](pols...)
+		}
+		ctx, err := th(w.reqCtx, &tap.Info{FullMethodName: "/svc/Method"})
 		e := Event{Kind: EvAdapter, L: AdReturn, Err: err}
 		if ctx != w.reqCtx {
 			e.B = PArgs
